@@ -115,7 +115,7 @@ fn run_job(cases: &BTreeMap<String, Vec<Case>>, job: &Job, monitors: &[String]) 
             let lo = pos.saturating_sub(60);
             violations.push(("forge.effect".into(), format!("{} forged datagrams changed what the endpoints did: without them ...{}..., with them ...{}...", forged, &o0[lo..(pos + 80).min(o0.len())], &o1[lo..(pos + 80).min(o1.len())])));
         }
-        if forged == 0 {
+        if forged == 0 && !job.schedule.iter().any(|(i, a)| matches!(a, Action::Forge(3)) && *i < 2) {
             violations.push(("machinery.forge_vacuous".into(), "no forged datagram was produced".into()));
         }
     }
